@@ -40,10 +40,12 @@ object on `server._thread_pool`; work items run on real non-loop threads up to a
 """
 import asyncio
 import concurrent.futures
+import gc
 import json
 import logging
 import threading
 import warnings
+import weakref
 
 logging.disable(logging.CRITICAL)
 warnings.simplefilter("ignore")
@@ -60,6 +62,11 @@ BUILTIN_FAIL = "textDocument/didClose"
 
 class HarnessError(Exception):
     pass
+
+
+class _Sentinel:
+    """An object that belongs to one handler invocation (C16: must be collectable once it is answered)."""
+    __slots__ = ("__weakref__",)
 
 
 # ------------------------------------------------------------------ frames on the wire
@@ -218,6 +225,7 @@ class _Pool:
         fut = concurrent.futures.Future()
         job = _Job(fut, fn, args, s.cur)
         s.jobs.append(job)
+        s.open_jobs.append(job)
         part = getattr(fn, "_sched_part", None) or getattr(getattr(fn, "func", None), "_sched_part", None)
         b = (s.cur or {}).get("b", {}).get(part)
         if b and b.get("early"):
@@ -252,6 +260,8 @@ class Sched:
         self.seen = [0, 0, 0]
         self.anomalies = []
         self.orphans = []
+        self.sentinels = []                  # weak references to the sentinels created inside handlers
+        self.open_tasks, self.open_jobs = set(), []
         S = self
 
         class Server(LanguageServer):
@@ -347,9 +357,15 @@ class Sched:
         from pygls.exceptions import JsonRpcException
         raise JsonRpcException("scripted rpc failure", o[1])
 
+    def _sentinel(self):
+        obj = _Sentinel()
+        self.sentinels.append(weakref.ref(obj))
+        return obj
+
     def _h_sync(self, part):
         ctx = self.cur
         b = ctx["b"][part]
+        keep = self._sentinel()              # a local of the handler frame
         self._log(ctx, part, "start")
         self._log(ctx, part, "end")
         return self._outcome(b)
@@ -358,6 +374,7 @@ class Sched:
         task = asyncio.current_task()
         ctx = self.task_ctx[task]
         b = ctx["b"][part]
+        keep = self._sentinel()
         self._log(ctx, part, "start")
         for _ in range(b.get("n", 0)):
             gate = self.loop.create_future()
@@ -375,6 +392,7 @@ class Sched:
         job = self.tls.job
         ctx = job.ctx
         b = ctx["b"][part]
+        keep = self._sentinel()
         self._log(ctx, part, "start")
         job.at_gate.set()
         if not job.release.wait(20):
@@ -396,6 +414,7 @@ class Sched:
         else:
             self.htasks.append(task)
             self.task_ctx[task] = self.cur
+            self.open_tasks.add(task)
         return task
 
     def _collect(self):
@@ -443,7 +462,7 @@ class Sched:
 
     # ---- pool plumbing
     def _start_job(self, job):
-        if job.started or not job.fut.set_running_or_notify_cancel():
+        if job.started or job.fut is None or not job.fut.set_running_or_notify_cancel():
             return False
         job.started = True
 
@@ -469,6 +488,9 @@ class Sched:
         job.thread.join(60)
         if job.thread.is_alive():
             self.anomalies.append("job thread did not finish")
+        # the harness must not keep the finished work item (its future, exception, frames) alive
+        job.thread = job.fn = job.args = job.ctx = None
+        job.fut = None
         return True
 
     # ---- writer back end
@@ -493,9 +515,16 @@ class Sched:
             self._task_step(e[1])
         elif k == "cb":
             t = self.htasks[e[1]] if e[1] < len(self.htasks) else None
-            h = self.pending_cbs.pop(t, None)
+            h = self.pending_cbs.pop(t, None) if t is not None else None
             if h is not None:
                 self._run_handle(h)
+                if self.exit is None:
+                    # answered: the harness forgets the task so that only pygls could keep it alive
+                    self.htasks[e[1]] = None
+                    self.task_ctx.pop(t, None)
+                    self.gates.pop(t, None)
+                    self.pending_steps.pop(t, None)
+                del h, t
         elif k == "jstart":
             if e[1] < len(self.jobs):
                 self._start_job(self.jobs[e[1]])
@@ -548,7 +577,7 @@ class Sched:
         if t >= len(self.htasks):
             return
         task = self.htasks[t]
-        if task.done():
+        if task is None or task.done():
             return
         h = self.pending_steps.pop(task, None)
         if h is None:
@@ -572,14 +601,16 @@ class Sched:
 
     # ---- observation
     def quiescent(self):
-        if any(not t.done() for t in self.htasks) or self.pending_cbs or self.wq_handles or self.exit_handles:
-            return False
-        for j in self.jobs:
-            if j.started and not j.finished:
-                return False
-            if not j.started and not j.fut.cancelled():
-                return False
-        return True
+        self.open_tasks = {t for t in self.open_tasks if not t.done()}
+        self.open_jobs = [j for j in self.open_jobs
+                          if not (j.finished or (not j.started and j.fut is not None and j.fut.cancelled()))]
+        return not (self.open_tasks or self.open_jobs or self.pending_cbs or self.wq_handles or self.exit_handles)
+
+    def alive_sentinels(self):
+        """Sentinels of handler invocations that the garbage collector cannot reclaim right now."""
+        gc.collect()
+        self.sentinels = [w for w in self.sentinels if w() is not None]
+        return len(self.sentinels)
 
     def observe(self):
         a, b, c = self.seen
@@ -601,7 +632,7 @@ class Sched:
                 job.thread.join(5)
         try:
             self.loop._ready.clear()
-            for t in [self.reader_task] + self.htasks + list(self.wtasks):
+            for t in [self.reader_task] + [x for x in self.htasks if x is not None] + list(self.wtasks):
                 if t is None or t.done():
                     continue
                 t._log_destroy_pending = False
@@ -664,17 +695,25 @@ def chained_of(case):
 
 
 def run_case(case, error_handler="protected"):
-    """Realise the event list on a fresh real LanguageServer; one observation per event."""
+    """Realise the event list on a fresh real LanguageServer; one observation per event.
+    `case["gc"]` (optional): event indices after which the sentinels still alive are counted."""
     s = Sched(case["cfg"], chained_of(case), error_handler)
     obs = []
+    gcs = set(case.get("gc") or [])
+    alive = []
     try:
         s.observe()
-        for e in case["evs"]:
+        for k, e in enumerate(case["evs"]):
             s.do(e)
             obs.append(s.observe())
+            if k in gcs:
+                alive.append([k, s.alive_sentinels()])
+        out = {"obs": obs}
+        if gcs:
+            out["gc"] = alive
         if s.anomalies:
-            return {"obs": obs, "anomalies": s.anomalies}
-        return {"obs": obs}
+            out["anomalies"] = s.anomalies
+        return out
     finally:
         s.close()
 
@@ -821,6 +860,14 @@ def parse_run(toks, n):
     summ = {"guard": bool(c.int()), "tie_guard": bool(c.int()), "f18": bool(c.int()), "exact": bool(c.int()), "quiescent": bool(c.int())}
     summ["ids"] = c.list(lambda: [c.id(), c.int(), c.int()])     # id, owed, replies in the model
     summ["owed"] = owed
+    if c.i < len(c.t):
+        # C08 driver: per request frame [id, natural payload, -32800 allowed?, natural allowed by allowedb?]
+        def payload():
+            if c.int() == 0:
+                r = c.int()
+                return ["result", "null" if r == 0 else c.int() if r == 1 else "obj"]
+            return ["error", c.int()]
+        summ["reqs"] = c.list(lambda: [c.id(), payload(), bool(c.int()), bool(c.int())])
     return obs, summ
 
 
